@@ -2,3 +2,16 @@ import TFVerif.Props.C05
 open TFVerif.C05
 #print axioms normIndex_python
 #print axioms normIndex_raises
+#print axioms slice_step1_is_drop_take
+#print axioms positions_in_range
+#print axioms raises_iff
+#print axioms mnt_select_refines
+#print axioms mnt_result_wellformed
+#print axioms mnt_chain_refines
+#print axioms mnt_getitem_tuple
+#print axioms mnt_getitem_cell
+#print axioms met_select_refines
+#print axioms met_result_wellformed
+#print axioms met_chain_refines
+#print axioms met_select_grid
+#print axioms met_getitem_cell
